@@ -106,6 +106,10 @@ func runUUID(e *Env) {
 		out := make([][]uuidGen, nG)
 		var wg sync.WaitGroup
 		start := make(chan struct{})
+		// with real parallelism (GOMAXPROCS > 1, the parallel pass) the generators
+		// additionally spin on a flag so that their first calls really coincide
+		spin := runtime.GOMAXPROCS(0) > 1
+		var ready, gate int32
 		for g := 0; g < nG; g++ {
 			g := g
 			out[g] = make([]uuidGen, 0, counts[g])
@@ -113,6 +117,14 @@ func runUUID(e *Env) {
 			go func() {
 				defer wg.Done()
 				<-start
+				if spin {
+					atomic.AddInt32(&ready, 1)
+					for n := 0; atomic.LoadInt32(&gate) == 0; n++ {
+						if n%1024 == 1023 {
+							runtime.Gosched()
+						}
+					}
+				}
 				for i := 0; i < counts[g]; i++ {
 					var r uuidGen
 					if modes[g] == 0 {
@@ -132,6 +144,12 @@ func runUUID(e *Env) {
 			}()
 		}
 		close(start)
+		if spin {
+			for n := 0; atomic.LoadInt32(&ready) < int32(nG) && n < 1<<22; n++ {
+				runtime.Gosched()
+			}
+			atomic.StoreInt32(&gate, 1)
+		}
 		wg.Wait()
 		if !time.Now().Equal(at) {
 			// cannot happen in a bubble: nothing sleeps while the generators run
